@@ -830,8 +830,33 @@ func checkOrphanPass(c *Ctx, fn *ssa.Function) {
 						kv, viaRecv = mc.Call.Value, true
 					}
 				}
-				for _, lf := range w.Leaves(kv, at) {
+				kleaves := w.Leaves(kv, at)
+				subst := ""
+				// the blob chosen by an exported function of the repository (one parameter: the identity): its returns,
+				// rendered with the argument in place of the parameter
+				if hc, ok := throughCell(strip(kv)).(*ssa.Call); ok && len(hc.Call.Args) == 1 {
+					if h := hc.Call.StaticCallee(); h != nil && w.InRepo(h) && h.Blocks != nil && !w.transparent(h) && h.Signature.Results().Len() == 1 {
+						kleaves = nil
+						subst = w.Expr(hc.Call.Args[0])
+						for _, r := range liveReturns(h) {
+							for _, lf := range w.leaves(r.Results[0], r, false) {
+								fs := copyFacts(w.factsOf(h).in[r.Block()])
+								for l := range lf.Facts {
+									fs[l] = true
+								}
+								kleaves = append(kleaves, Leaf{Val: lf.Val, Facts: fs})
+							}
+						}
+					}
+				}
+				for _, lf := range kleaves {
 					ke := w.Expr(lf.Val)
+					if ins, isIns := lf.Val.(ssa.Instruction); subst != "" && isIns {
+						ke = strings.ReplaceAll(w.ExprIn(ins.Parent(), lf.Val), "(p0)", "("+subst+")")
+					}
+					if lf.Facts == nil {
+						lf.Facts = map[Lit]bool{}
+					}
 					for l := range klf.Facts {
 						lf.Facts[l] = true
 					}
